@@ -831,6 +831,18 @@ def r10_inherent(header: str) -> str:
     return m.group(1) + " " + m.group(2)
 
 
+def for_trait_header(header: str, new_trait: str) -> str:
+    """option `for_trait=Tr<..>` (additive): `impl<G> Trait<..> for Type where W` -> `impl<G> Tr<..> for Type where W`.
+    Used when R10 would leave type parameters unconstrained (they occur only in the trait's arguments and in the
+    where clause): the fn is emitted as a method of a carrier trait declared in the unit text; generics and
+    where clause still come from the repository."""
+    gen, rest = split_generics(header)
+    k = rest.find(" for ")
+    if k < 0:
+        return header
+    return "impl" + gen + " " + new_trait + rest[k:]
+
+
 def split_generics(header: str):
     """returns (generics_text_with_angle_brackets_or_'', rest) for `impl<...> rest`"""
     assert header.startswith("impl")
@@ -1221,6 +1233,8 @@ def emit_fn(u: Unit, fpath, impl_pat, name, spec: FnSpec, reach: bool, mutate):
                 h = h2
         if "impl_header" in spec.opts:
             h = spec.opts["impl_header"]
+        if "for_trait" in spec.opts:
+            h = for_trait_header(hrw.t, spec.opts["for_trait"])
         u.emit(h + " {", ("repo", what))
         if assoc and spec.opts.get("keep_trait") == "1" and "impl_header" not in spec.opts:
             for an, ty in assoc:
@@ -1378,6 +1392,8 @@ def emit_stub(u, text, header, spec, what, key, rw, rewritten=False):
             h = r10_inherent(h)
         if "impl_header" in spec.opts:
             h = spec.opts["impl_header"]
+        if "for_trait" in spec.opts:
+            h = for_trait_header(hrw.t, spec.opts["for_trait"])
         u.emit(h + " {", ("stub", what))
         u.emit(indent(out, "    "), ("stub", what))
         u.emit("}", ("stub", what))
